@@ -11,7 +11,7 @@
                     types are values (Compare = 0 only between identical types).
    All statements quantify over all graphs and all renumberings; no size bound. *)
 From DepsDev Require Import Lib.Base Lib.Order Lib.Sort Lib.SortSpec Gen.GraphTables
-  Resolve.Attr Resolve.Graph Resolve.Graph_spec Resolve.Graph_cmp_proofs Resolve.Graph_wf_proofs Resolve.Graph_proofs.
+  Resolve.Attr Resolve.Attr_proofs Resolve.Graph Resolve.Graph_spec Resolve.Graph_cmp_proofs Resolve.Graph_wf_proofs Resolve.Graph_proofs.
 
 (* The full statement, for either way of computing the duplicate flag. *)
 Definition C13_invariance (scan : bool) : Prop :=
@@ -64,6 +64,15 @@ Theorem C13_types_canonical : forall ts, Forall dtype_wf ts -> types_canonical t
 Proof. exact types_canonical_of_wf. Qed.
 Print Assumptions C13_types_canonical.
 
+(* The comparison of dependency types used for the edge order is the Compare of the
+   attribute-set model of C19, on every state its operations can reach. *)
+Theorem C13_type_compare_is_C19 : forall ops v w, Forall Attr_proofs.no_assign ops ->
+  let s := run ops in
+  set_compare s (vars s v) (vars s w) =
+  dtype_compare (mask (vars s v), map_of s (vars s v)) (mask (vars s w), map_of s (vars s w)).
+Proof. intros ops v w H. exact (set_compare_is_dtype_compare (run ops) v w (Attr_proofs.run_inv ops H)). Qed.
+Print Assumptions C13_type_compare_is_C19.
+
 (* The model of the tree is the variant the translator read from the sources. *)
 Theorem C13_current_variant : canon_current = canon canon_dupe_by_scan.
 Proof. reflexivity. Qed.
@@ -80,6 +89,15 @@ Theorem C13_invariant_refuted_parallel :
   graph_wf w2_g /\ iso w2_pi w2_g w2_g' /\
   (exists h, canon false w2_g = Ok h) /\ canon false w2_g' = Err EDupDirect.
 Proof. exact (conj w2_wf (conj w2_iso canon_less_witness_parallel)). Qed.
+
+(* ... and idempotence fails too (the breadth-first order it produces is not a fixed point). *)
+Theorem C13_idem_refuted : exists g h, graph_wf g /\ canon false g = Ok h /\ canon false h <> Ok h.
+Proof.
+  destruct canon_less_not_idem as (h & E & N). exists w_g', h. split; [|auto].
+  split; [unfold w_g', in_range; cbn [g_nodes g_edges length]; repeat constructor; simpl; auto with arith
+         | apply w_types_canonical; repeat constructor].
+Qed.
+Print Assumptions C13_idem_refuted.
 
 (* Non-vacuity: the hypotheses are met by a graph with a duplicated version, a renumbering
    that is not the identity, and a run that takes the breadth-first path and succeeds. *)
